@@ -242,6 +242,17 @@ def run_c12(mbi, case):
             probes['huge-attribute-sizes'] = 1
             if any(float(np.prod([case['sizes'][ix[x]] for x in set(a) & set(b)])) > 1e6 for a, b in edges if len(set(a) & set(b)) >= 2):
                 probes['separator-table>1e6-cells'] = 1
+        if not isinstance(elim, dict) and len(case['attrs']) <= 8:
+            # the same clique list again over a domain with one more attribute that belongs to no clique
+            ext = dict(case, attrs=case['attrs'] + ['zz_extra'], sizes=case['sizes'] + [2],
+                       elims=[None if elim is None else list(elim) + ['zz_extra']])
+            tree2, _ = build(mbi, ext, ext['elims'][0], 'C12', what='JunctionTree')
+            v2, _, _, _ = check_tree(ext, tree2, ext['elims'][0], faults, probes)
+            for x in v2:
+                x['sig'] += ':second-construction-extended-domain'
+                x['msg'] += ' [second JunctionTree in the same process: same cliques, domain extended by an attribute in no clique]'
+            viol += v2
+            faults['same-cliques-other-domain'] = 1
         measure = [hypergraph(case), mode, eo, sorted(sorted(ix[a] for a in n) for n in nodes), 'huge' if max(case['sizes']) >= 400 else 'small']
         nontrivial = len(nodes) >= 2 and (fill or elim is not None)
         # the GraphicalModel wrapper must expose the same tree
